@@ -163,6 +163,13 @@ class Fn(object):
                 return [], self.inputs[key][0], self.inputs[key][1]
         if self.tr and isinstance(e, ast.Name) and e.id in self.tr['ignore_locals']:
             raise Unsupported('the ignored local %s flows into a kept expression' % e.id)
+        if isinstance(e, ast.BinOp) and isinstance(e.op, ast.Mult):
+            b1, a, ta = self.expr(e.left, env)
+            b2, c, tc = self.expr(e.right, env)
+            if ta != 'V' or tc != 'V':
+                raise Unsupported('arithmetic on non-values')
+            n = self.fresh()
+            return b1 + b2 + [(n, '(V.mul %s %s)' % (a, c))], n, 'V'
         if isinstance(e, ast.BinOp) and isinstance(e.op, (ast.Sub, ast.Add)):
             b1, a, ta = self.expr(e.left, env)
             b2, c, tc = self.expr(e.right, env)
@@ -264,6 +271,17 @@ class Fn(object):
                 return b + [(n, '(V.sliceDropLast %s)' % t)], n, 'V'
             raise Unsupported('subscript %s' % ast.unparse(s))
         if isinstance(e, ast.Compare):
+            if len(e.ops) == 2 and all(isinstance(o_, (ast.Lt, ast.LtE, ast.Gt, ast.GtE)) for o_ in e.ops):
+                # a < b < c: b is evaluated once, c only if the first comparison holds
+                b1, a, ta = self.expr(e.left, env)
+                b2, m, tm = self.expr(e.comparators[0], env)
+                b3, c, tc = self.expr(e.comparators[1], env)
+                if (ta, tm, tc) != ('V', 'V', 'V') or b3:
+                    raise Unsupported('chained comparison of non-values')
+                nm = {ast.Lt: 'lt', ast.LtE: 'le', ast.Gt: 'gt', ast.GtE: 'ge'}
+                n1, n2 = self.fresh(), self.fresh()
+                return b1 + b2 + [(n1, '(V.%s %s %s)' % (nm[type(e.ops[0])], a, m)),
+                                  (n2, '(if %s then (V.%s %s %s) else some false)' % (n1, nm[type(e.ops[1])], m, c))], n2, 'Bool'
             if len(e.ops) != 1:
                 raise Unsupported('chained comparison')
             op = e.ops[0]
@@ -559,6 +577,14 @@ class Fn(object):
             if len(s.items) != 1 or s.items[0].optional_vars is not None \
                     or ast.unparse(s.items[0].context_expr) not in self.tr.get('lock_events', {}):
                 raise Unsupported('with %s' % ', '.join(ast.unparse(i_) for i_ in s.items))
+            rel_ = self.tr.get('lock_release_events', {}).get(ast.unparse(s.items[0].context_expr))
+            if rel_ and not self.in_loop:
+                # a region inside the function: no statement of it may leave the function; released at its end
+                if any(isinstance(n_, (ast.Return, ast.Raise, ast.Break, ast.Continue)) for x_ in s.body for n_ in ast.walk(x_)):
+                    raise Unsupported('a return / raise inside the region of %s' % ast.unparse(s.items[0].context_expr))
+                marker = ast.Expr(value=ast.Call(func=ast.Name(id='__release__' + rel_, ctx=ast.Load()), args=[], keywords=[]))
+                return pad + 'let trace := trace ++ [Event.%s]\n' % self.tr['lock_events'][ast.unparse(s.items[0].context_expr)] + \
+                    self.block(list(s.body) + [marker] + rest, env, ret, self_ty, indent)
             if rest or self.in_loop:
                 raise Unsupported('statements after the region of %s' % ast.unparse(s.items[0].context_expr))
             return pad + 'let trace := trace ++ [Event.%s]\n' % self.tr['lock_events'][ast.unparse(s.items[0].context_expr)] + \
@@ -569,6 +595,16 @@ class Fn(object):
             raise Unsupported('%s in a trace unit' % type(s).__name__.lower())
         if isinstance(s, ast.Pass):
             return self.block(rest, env, ret, self_ty, indent)
+        if isinstance(s, ast.Expr) and isinstance(s.value, ast.Call) and isinstance(s.value.func, ast.Name) \
+                and s.value.func.id.startswith('__release__'):
+            return pad + 'let trace := trace ++ [Event.%s]\n' % s.value.func.id[len('__release__'):] + \
+                self.block(rest, env, ret, self_ty, indent)
+        if isinstance(s, ast.For) and ast.unparse(s.iter) in self.tr.get('loop_events', {}):
+            # a declared loop as one event: its body is not looked at, and may not leave the loop or the function
+            if s.orelse or any(isinstance(n_, (ast.Return, ast.Raise, ast.Break)) for x_ in s.body for n_ in ast.walk(x_)):
+                raise Unsupported('the declared loop over %s leaves the loop' % ast.unparse(s.iter))
+            return pad + 'let trace := trace ++ [Event.%s]\n' % self.tr['loop_events'][ast.unparse(s.iter)] + \
+                self.block(rest, env, ret, self_ty, indent)
         if isinstance(s, ast.Try):
             if self.tr.get('refuse_try'):
                 raise Unsupported('a try statement in a unit declared to have none')
@@ -613,7 +649,7 @@ class Fn(object):
                     self.block(list(s.body) + rest, env, ret, self_ty, indent + 1))
             # only the try body: an exception is `none` in any case
             return self.block(list(s.body) + rest, env, ret, self_ty, indent)
-        if isinstance(s, ast.AugAssign) and isinstance(s.target, ast.Name) and isinstance(s.op, (ast.Sub, ast.Add)):
+        if isinstance(s, ast.AugAssign) and isinstance(s.target, ast.Name) and isinstance(s.op, (ast.Sub, ast.Add, ast.Mult)):
             new = ast.Assign(targets=[s.target], value=ast.BinOp(left=ast.Name(id=s.target.id, ctx=ast.Load()),
                                                                    op=s.op, right=s.value))
             return self.block([new] + rest, env, ret, self_ty, indent)
@@ -775,7 +811,7 @@ class Fn(object):
                     t, lean_name(x), inner, after)
                 return self.wrap(b, term, pad)
             raise Unsupported('for loop of this shape')
-        if isinstance(s, ast.AugAssign) and isinstance(s.target, ast.Name) and isinstance(s.op, (ast.Sub, ast.Add)):
+        if isinstance(s, ast.AugAssign) and isinstance(s.target, ast.Name) and isinstance(s.op, (ast.Sub, ast.Add, ast.Mult)):
             new = ast.Assign(targets=[s.target], value=ast.BinOp(left=ast.Name(id=s.target.id, ctx=ast.Load()),
                                                                    op=s.op, right=s.value))
             return self.block([new] + rest, env, ret, self_ty, indent)
@@ -1168,7 +1204,8 @@ def translate(spec, repo):
                 'lock_events': u.get('lock_events', {}), 'try_handlers': u.get('try_handlers', {}),
                 'assigned_input_events': u.get('assigned_input_events', {}),
                 'try_finally': u.get('try_finally'), 'refuse_try': u.get('refuse_try', False),
-                'subscript_events': u.get('subscript_events', {}),
+                'subscript_events': u.get('subscript_events', {}), 'loop_events': u.get('loop_events', {}),
+                'lock_release_events': u.get('lock_release_events', {}),
                 'units': dict((k_, v_) for k_, v_ in trace_units.items() if k_ != own_key)}))
             env = dict((p_, t) for p_, t in u['params'].items() if t != 'Opaque')
             for decl in u.get('assigned_inputs', {}).values():
@@ -1228,6 +1265,64 @@ def translate(spec, repo):
             out.append('def %s %s : Option %s :=\n%s\n' % (
                 ('%s_%s' % (cls_name(u['class']), u['name'].lstrip('_'))) if u.get('class') else lean_name(u['name'].lstrip('_')),
                 sig, u['returns'], body))
+        elif kind == 'retry_loop':
+            # `<state> = <int>`...; `while True: try: <one call>; return ... except A: ... except (B, C) as e: ...`:
+            # a function of what the successive calls do (`outcome k`: which handler's class is raised, "" = returns,
+            # and the declared readings of the exception).  A handler either returns or falls off its end, which
+            # starts the next iteration with the current state.  `fuel` bounds the number of iterations (`none`).
+            want = (['self'] if u.get('class') else []) + list(u['params'])
+            if got != want:
+                raise Unsupported('signature of %s is %s, spec says %s' % (u['name'], got, want))
+            stmts = [s_ for s_ in fn.body if not (isinstance(s_, ast.Expr) and isinstance(s_.value, ast.Constant))]
+            state = []
+            while stmts and isinstance(stmts[0], ast.Assign) and len(stmts[0].targets) == 1 \
+                    and isinstance(stmts[0].targets[0], ast.Name) and isinstance(stmts[0].value, ast.Constant) \
+                    and isinstance(stmts[0].value.value, int) and not isinstance(stmts[0].value.value, bool):
+                state.append((stmts[0].targets[0].id, stmts[0].value.value))
+                stmts = stmts[1:]
+            if len(stmts) != 1 or not isinstance(stmts[0], ast.While) or stmts[0].orelse \
+                    or not (isinstance(stmts[0].test, ast.Constant) and stmts[0].test.value is True) \
+                    or len(stmts[0].body) != 1 or not isinstance(stmts[0].body[0], ast.Try):
+                raise Unsupported('%s is not `while True: try: ...`' % u['name'])
+            t_ = stmts[0].body[0]
+            if t_.orelse or t_.finalbody or not t_.body or not (isinstance(t_.body[0], ast.Assign)
+                                                                and ast.unparse(t_.body[0].value.func) == u['attempt']):
+                raise Unsupported('%s: the try does not start with %s' % (u['name'], u['attempt']))
+            fields = [(d_['field'], d_['type']) for d_ in u.get('attempt_inputs', {}).values()]
+            table = dict((text, ('(outcome k).%s' % d_['field'], d_['type'])) for text, d_ in u.get('attempt_inputs', {}).items())
+            lname = ('%s_%s' % (cls_name(u['class']), u['name'].lstrip('_'))) if u.get('class') else lean_name(u['name'].lstrip('_'))
+            tr = Fn(spec, records, funcs, dict(ctx, cls=None, inputs=table, trace={
+                'events': events, 'ignore_locals': set(u.get('ignore_locals', [])) | {t_.body[0].targets[0].id},
+                'ignore_calls': set(u.get('ignore_calls', [])), 'ignore_fields': set(),
+                'return_events': u.get('return_events', {}), 'units': {}}))
+            env = dict((n_, 'V') for n_, _v in state)
+            names = ' '.join(lean_name(n_) for n_, _v in state)
+            tr.fall = '%s_loop outcome fuel (k + 1) %s trace' % (lname, names)
+            arms = [('', tr.block(list(t_.body[1:]), env, 'List Event', None, 3))]
+            for h in t_.handlers:
+                cls_ = [h.type.id] if isinstance(h.type, ast.Name) else \
+                    [x_.id for x_ in h.type.elts] if isinstance(h.type, ast.Tuple) and all(isinstance(x_, ast.Name) for x_ in h.type.elts) \
+                    else None
+                if not cls_:
+                    raise Unsupported('%s: handler %s' % (u['name'], ast.unparse(h.type) if h.type else 'of everything'))
+                if h.name:
+                    tr.tr['ignore_locals'].add(h.name)
+                arms.append(('|'.join(cls_), tr.block(list(h.body), env, 'List Event', None, 3)))
+            out.append('/-- what one call of `%s` does: the handler clause that catches what it raises ("" = it returns), and\n'
+                       'what that handler reads of the exception -/' % u['attempt'])
+            out.append('structure Attempt where\n  raised : String\n%sderiving Repr, DecidableEq\n' % ''.join(
+                '  %s : %s\n' % (f_, lean_ty(ty_)) for f_, ty_ in fields))
+            chain = '      none'
+            for key_, body_ in reversed(arms):
+                chain = '    if (outcome k).raised = %s then\n%s\n    else\n%s' % (json.dumps(key_), body_, chain)
+            out.append('/-- the loop of `%s`: iteration `k`, the state, the events so far; a handler that neither returns nor raises\n'
+                       'starts the next iteration; an exception no handler names propagates (`none`), as does running out of `fuel` -/' % u['name'])
+            out.append('def %s_loop (outcome : Nat → Attempt) : Nat → Nat → %s → List Event → Option (List Event)\n'
+                       '  | 0, _, %s, _ => none\n  | fuel + 1, k, %s, trace =>\n    let trace := trace ++ [Event.%s]\n%s\n' % (
+                           lname, ' → '.join('V' for _s in state), ', '.join('_' for _s in state), ', '.join(lean_name(n_) for n_, _v in state),
+                           u['attempt_event'], chain))
+            out.append('def %s (outcome : Nat → Attempt) (fuel : Nat) : Option (List Event) :=\n  %s_loop outcome fuel 0 %s []\n' % (
+                lname, lname, ' '.join('(V.int %d)' % v_ for _n, v_ in state)))
         elif kind == 'exit_map':
             # a function whose body is one `try`: what it returns when the body ends normally (as a function of the
             # declared inputs) and when the body raises an exception of a class a handler names.  A handler is
